@@ -1098,4 +1098,148 @@ theorem cardano_chain_eq_implicit_aux (a b c : ℝ) (k : Nat) (hdet : 0 < cubDet
     have h10 : (-1.0:ℝ) = -1 := by norm_num
     rw [h30, h10, ← r3]; norm_num
 
+
+/-! ### ext: twistable WLC and eFJC derivatives w.r.t. the force -/
+section ext
+open Filter Topology
+
+theorem twlc_above (f Lp Lc St C g0 g1 Fc kT : ℝ) (hf : 0 < f) (hLp : 0 < Lp) (hkT : 0 < kT)
+    (hFc : Fc < f) (hden : C * St - (g0 + g1 * f) * (g0 + g1 * f) ≠ 0) (hg : g0 + g1 * f ≠ 0) :
+    HasDerivAt (fun f => twlcDistance f Lp Lc St C g0 g1 Fc kT) (twlcDistanceDeriv f Lp Lc St C g0 g1 Fc kT) f := by
+  obtain ⟨hsp, hk⟩ := odijk_sqrt_facts f Lp kT hf hLp hkT
+  have hpos : 0 < kT / (f * Lp) := by positivity
+  have hden' : -(g0 + g1 * f) * (g0 + g1 * f) + St * C ≠ 0 := by
+    intro h; apply hden; linarith
+  -- near f the second branch of `g` is taken
+  have hev : (fun f => twlcDistance f Lp Lc St C g0 g1 Fc kT) =ᶠ[𝓝 f]
+      fun f => Lc * (1.0 - 1.0 / 2.0 * Real.sqrt (kT / (f * Lp)) + (C / ((-(g0 + g1 * f)) * (g0 + g1 * f) + St * C)) * f) := by
+    filter_upwards [Ioi_mem_nhds hFc] with x hx
+    have hx' : Fc < x := hx
+    have h1 : RealLike.lt x Fc = false := by
+      show decide (x < Fc) = false
+      rw [decide_eq_false_iff_not]; linarith
+    have h2 : RealLike.le Fc x = true := by
+      show decide (Fc ≤ x) = true
+      rw [decide_eq_true_eq]; linarith
+    simp only [twlcDistance, h1, h2, Bool.false_eq_true, if_false, if_true]
+    rfl
+  refine HasDerivAt.congr_of_eventuallyEq ?_ hev
+  have i1 : RealLike.lt Fc f = true := by
+    show decide (Fc < f) = true
+    rw [decide_eq_true_eq]; exact hFc
+  have i2 : RealLike.le f Fc = false := by
+    show decide (f ≤ Fc) = false
+    rw [decide_eq_false_iff_not]; linarith
+  apply HasDerivAt.congr_deriv
+  · deriv_auto
+    all_goals side_goal
+  · simp only [twlcDistanceDeriv, RealLike.sqrt, i1, i2, ind, if_true, Bool.false_eq_true, if_false]
+    have e : kT * (1.0 / f) / Lp = kT / (f * Lp) := by norm_num; field_simp
+    rw [e]
+    generalize Real.sqrt (kT / (f * Lp)) = s at *
+    subst hk
+    have hden2 : C * St - (g0 + g1 * (f * 1.0 + Fc * 0.0)) * (g0 + g1 * (f * 1.0 + Fc * 0.0)) ≠ 0 := by
+      norm_num; exact hden
+    have hg2 : g0 + g1 * (f * 1.0 + Fc * 0.0) ≠ 0 := by norm_num; exact hg
+    rat_close
+
+theorem twlc_below (f Lp Lc St C g0 g1 Fc kT : ℝ) (hf : 0 < f) (hLp : 0 < Lp) (hkT : 0 < kT)
+    (hFc : f < Fc) (hden : C * St - (g0 + g1 * Fc) * (g0 + g1 * Fc) ≠ 0) (hg : g0 + g1 * Fc ≠ 0) :
+    HasDerivAt (fun f => twlcDistance f Lp Lc St C g0 g1 Fc kT) (twlcDistanceDeriv f Lp Lc St C g0 g1 Fc kT) f := by
+  obtain ⟨hsp, hk⟩ := odijk_sqrt_facts f Lp kT hf hLp hkT
+  have hpos : 0 < kT / (f * Lp) := by positivity
+  have hden' : -(g0 + g1 * Fc) * (g0 + g1 * Fc) + St * C ≠ 0 := by
+    intro h; apply hden; linarith
+  have hev : (fun f => twlcDistance f Lp Lc St C g0 g1 Fc kT) =ᶠ[𝓝 f]
+      fun f => Lc * (1.0 - 1.0 / 2.0 * Real.sqrt (kT / (f * Lp)) + (C / ((-(g0 + g1 * Fc)) * (g0 + g1 * Fc) + St * C)) * f) := by
+    filter_upwards [Iio_mem_nhds hFc] with x hx
+    have hx' : x < Fc := hx
+    have h1 : RealLike.lt x Fc = true := by
+      show decide (x < Fc) = true
+      rw [decide_eq_true_eq]; exact hx'
+    simp only [twlcDistance, h1, if_true]
+    rfl
+  refine HasDerivAt.congr_of_eventuallyEq ?_ hev
+  have i1 : RealLike.lt Fc f = false := by
+    show decide (Fc < f) = false
+    rw [decide_eq_false_iff_not]; linarith
+  have i2 : RealLike.le f Fc = true := by
+    show decide (f ≤ Fc) = true
+    rw [decide_eq_true_eq]; linarith
+  apply HasDerivAt.congr_deriv
+  · deriv_auto
+    all_goals side_goal
+  · simp only [twlcDistanceDeriv, RealLike.sqrt, i1, i2, ind, if_true, Bool.false_eq_true, if_false]
+    have e : kT * (1.0 / f) / Lp = kT / (f * Lp) := by norm_num; field_simp
+    rw [e]
+    generalize Real.sqrt (kT / (f * Lp)) = s at *
+    subst hk
+    have hden2 : C * St - (g0 + g1 * (f * 0.0 + Fc * 1.0)) * (g0 + g1 * (f * 0.0 + Fc * 1.0)) ≠ 0 := by
+      norm_num; exact hden
+    have hg2 : g0 + g1 * (f * 0.0 + Fc * 1.0) ≠ 0 := by norm_num; exact hg
+    rat_close
+
+macro "deriv_step_h" : tactic => `(tactic| first
+  | exact hasDerivAt_const _ _
+  | exact hasDerivAt_id' _
+  | apply HasDerivAt.sinh
+  | apply HasDerivAt.cosh
+  | apply HasDerivAt.sqrt
+  | apply HasDerivAt.div
+  | apply HasDerivAt.sub
+  | apply HasDerivAt.neg
+  | apply HasDerivAt.add
+  | apply HasDerivAt.mul)
+
+theorem efjc_distance_hasDerivAt_aux (f Lp Lc St kT : ℝ) (hf : 0 < f) (hLp : 0 < Lp) (hkT : 0 < kT) (hSt : 0 < St)
+    (hx : f * (2 * Lp / kT) < 300) :
+    HasDerivAt (fun f => efjcDistance f Lp Lc St kT) (efjcDistanceDeriv f Lp Lc St kT) f := by
+  have hB : f < 150 * kT / Lp := by
+    rw [lt_div_iff₀ hLp]
+    have : f * (2 * Lp / kT) * kT = 2 * (f * Lp) := by field_simp
+    nlinarith
+  have hev : (fun f => efjcDistance f Lp Lc St kT) =ᶠ[𝓝 f]
+      fun f => Lc * (Real.cosh (2.0 * f * Lp / kT) / Real.sinh (2.0 * f * Lp / kT) - kT / (2.0 * f * Lp)) * (1.0 + f / St) := by
+    filter_upwards [Ioo_mem_nhds hf hB] with x hx
+    obtain ⟨hx0, hx1⟩ := hx
+    have h1 : RealLike.lt (RealLike.abs (2.0 * x * Lp / kT)) (500.0:ℝ) = true := by
+      show decide (|2.0 * x * Lp / kT| < 500.0) = true
+      rw [decide_eq_true_eq]
+      have hp : 0 < 2.0 * x * Lp / kT := by positivity
+      rw [abs_of_pos hp, div_lt_iff₀ hkT]
+      rw [lt_div_iff₀ hLp] at hx1
+      norm_num; nlinarith
+    simp only [efjcDistance, coth, h1, if_true]
+    rfl
+  refine HasDerivAt.congr_of_eventuallyEq ?_ hev
+  have hsinh : Real.sinh (2.0 * f * Lp / kT) ≠ 0 := by
+    have hp : 0 < 2.0 * f * Lp / kT := by positivity
+    exact (Real.sinh_pos_iff.mpr hp).ne'
+  apply HasDerivAt.congr_deriv
+  · repeat' deriv_step_h
+    all_goals side_goal
+  · have harg : f * (2.0 * Lp / kT) = 2.0 * f * Lp / kT := by
+      have h20 : (2.0:ℝ) = 2 := by norm_num
+      rw [h20]; ring
+    have h1 : RealLike.lt (RealLike.abs (f * (2.0 * Lp / kT))) (500.0:ℝ) = true := by
+      show decide (|f * (2.0 * Lp / kT)| < 500.0) = true
+      rw [decide_eq_true_eq]
+      have hp : 0 < f * (2.0 * Lp / kT) := by positivity
+      rw [abs_of_pos hp]; norm_num; linarith
+    have h2 : RealLike.lt (f * (2.0 * Lp / kT)) (300.0:ℝ) = true := by
+      show decide (f * (2.0 * Lp / kT) < 300.0) = true
+      rw [decide_eq_true_eq]; norm_num; linarith
+    simp only [efjcDistanceDeriv, coth, h1, h2, if_true]
+    rw [harg]
+    have hcs := Real.cosh_sq (2.0 * f * Lp / kT)
+    show _ = Lc * (1.0 / St) * (Real.cosh (2.0 * f * Lp / kT) / Real.sinh (2.0 * f * Lp / kT) - 0.5 * kT / Lp / f)
+        + Lc * (f * (1.0 / St) + 1.0) * (-(2.0 * Lp / kT) * (1.0 / (Real.sinh (2.0 * f * Lp / kT) * Real.sinh (2.0 * f * Lp / kT))) + 0.5 * kT / Lp / (f * f))
+    generalize Real.cosh (2.0 * f * Lp / kT) = ch at *
+    generalize Real.sinh (2.0 * f * Lp / kT) = sh at *
+    norm_num
+    field_simp
+    linear_combination (-(Lc * (2 ^ 2 * Lp ^ 2 * f ^ 2) * (St + f))) * hcs
+
+end ext
+
 end Verif.C13
